@@ -468,6 +468,12 @@ def cases(tier, what="forward"):
                     add("fold", [(N, Ci * k[0] * k[1], L)], dict(args, kernel_size=sp(k, 0), output_size=[H, W]))
                     if fw or n % 2 == 0:
                         add("fold", [(N, Ci * k[0] * k[1], L)], dict(args, kernel_size=sp(k, 1), output_size=(H if H == W else [H, W])), form="layer")
+                    if fw and n % 3 == 0:
+                        # a block count that does not match the geometry (one off, a further row / column of blocks, twice as many)
+                        # has no folding: the call must be refused, not folded from a subset of the blocks
+                        lH = lattice.conv_out(H, k[0], s[0], p[0], d[0]); lW = L // lH
+                        for Lbad in sorted({L + 1, L - 1, L + lH, L + lW, 2 * L} - {0, L}):
+                            add("fold", [(N, Ci * k[0] * k[1], Lbad)], dict(args, kernel_size=sp(k, 0), output_size=[H, W]), form="fn" if Lbad % 2 else "layer")
     n = 0
     for (ga, gb) in geoms2d(tier, pool=True, grad=not fw):
         ok = ga[5] and gb[5]
